@@ -11,6 +11,7 @@
 use super::*;
 use font_types::{F2Dot14, GlyphId};
 use read_fonts::tables::cvar::Cvar;
+use read_fonts::tables::gvar::Gvar;
 use read_fonts::tables::variations::{Tuple, TupleDelta, TupleIndex, TupleVariation, TupleVariationCount, TupleVariationData, TupleVariationHeader};
 use read_fonts::{FontData, FontRead, ReadError};
 
@@ -43,7 +44,22 @@ fn variants(rng: &mut Rng, b: &B, flips: usize) -> Vec<Vec<u8>> {
     let base = &b.v;
     let n = base.len();
     let mut out = vec![base.clone()];
-    for c in 0..n {
+    let mut cuts: Vec<usize> = vec![];
+    if n <= 260 {
+        cuts.extend(0..n);
+    } else {
+        cuts.extend(0..160);
+        cuts.extend(n - 48..n);
+        for (p, w) in &b.fields {
+            for d in [0usize, 1] {
+                cuts.push((*p + d).min(n - 1));
+                cuts.push((*p + *w as usize + d).min(n - 1));
+            }
+        }
+        cuts.sort();
+        cuts.dedup();
+    }
+    for c in cuts {
         out.push(base[..c].to_vec());
     }
     for (p, w) in &b.fields {
@@ -555,8 +571,259 @@ fn run_cvar(ctx: &mut Ctx) {
     }
 }
 
+/// `Cvar::deltas`: `hv.cvard <axis_count> <n> <hex> <coords…>` with the buffer `[MAX, MIN, 0, …]`
+fn ask_cvard(ctx: &mut Ctx, ac: u16, n: usize, coords: &[i16], bytes: &[u8]) {
+    let req = format!("hv.cvard {} {} {}{}", ac, n, hex(bytes), coord_args(coords));
+    let cs = f2(coords);
+    let r = catch(|| {
+        let s = match Cvar::read(FontData::new(bytes)) {
+            Err(e) => err_str(&e),
+            Ok(cvar) => {
+                let mut buf = vec![0i32; n];
+                if n > 0 {
+                    buf[0] = i32::MAX;
+                }
+                if n > 1 {
+                    buf[1] = i32::MIN;
+                }
+                match cvar.deltas(ac, &cs, &mut buf) {
+                    Err(e) => err_str(&e),
+                    Ok(()) => format!("{}.{} {}", n, fnv(buf.iter().map(|v| *v as u32 as u64)), join(&buf[..n.min(4)])),
+                }
+            }
+        };
+        (s, Seen::default())
+    });
+    settle(ctx, req, bytes, r);
+}
+
+// ------------------------------------------------------------------------------------------------
+// gvar: `hv.gvarhdr <hex> <gids…>`, `hv.gvar <gid> <hex> <coords…>`
+
+struct GvarSpec {
+    axis_count: u16,
+    n_shared: u16,
+    glyphs: Vec<Vec<u8>>,
+    long: bool,
+}
+
+fn gvar_table(rng: &mut Rng, s: &GvarSpec) -> B {
+    let mut b = B::new();
+    b.u16(1).u16(0);
+    b.f16(s.axis_count).f16(s.n_shared).f32(0);
+    b.f16(s.glyphs.len() as u16).f16(s.long as u16).f32(0);
+    let mut off = 0u32;
+    for k in 0..=s.glyphs.len() {
+        if s.long {
+            b.f32(off);
+        } else {
+            b.f16((off / 2) as u16);
+        }
+        if k < s.glyphs.len() {
+            off += s.glyphs[k].len() as u32;
+        }
+    }
+    let at = b.len();
+    b.set32(8, at as u32);
+    for _ in 0..s.n_shared as usize * s.axis_count as usize {
+        b.i16(rcoord(rng));
+    }
+    let at = b.len();
+    b.set32(16, at as u32);
+    for g in &s.glyphs {
+        // the glyph's own count / offset fields take part in the boundary values
+        let at = b.len();
+        b.bytes(g);
+        if g.len() >= 4 {
+            b.mark(at, 2);
+            b.mark(at + 2, 2);
+        }
+    }
+    b
+}
+
+fn ask_gvarhdr(ctx: &mut Ctx, gids: &[u32], bytes: &[u8]) {
+    let req = format!("hv.gvarhdr {} {}", hex(bytes), join(gids));
+    let r = catch(|| {
+        let mut seen = Seen::default();
+        let s = match Gvar::read(FontData::new(bytes)) {
+            Err(e) => err_str(&e),
+            Ok(g) => {
+                let st = match g.shared_tuples() {
+                    Err(e) => err_str(&e),
+                    Ok(st) => {
+                        let tuples = st.tuples();
+                        // the array's bytes: `len()` whole items plus a possible partial one are not
+                        // exposed; re-read them through `get`
+                        let ac = g.axis_count() as usize;
+                        let count = g.shared_tuple_count() as usize;
+                        let mut bytes_seen = vec![];
+                        for i in 0..count {
+                            if let Ok(t) = tuples.get(i) {
+                                if !inside(bytes, t.values()) && seen.outside.is_none() {
+                                    seen.outside = Some(format!("shared tuple {i} outside the table"));
+                                }
+                                for v in t.values() {
+                                    bytes_seen.extend_from_slice(&v.get().to_bits().to_be_bytes());
+                                }
+                            }
+                        }
+                        if ac > 0 && tuples.len() != count && seen.over.is_none() {
+                            seen.over = Some(format!("{} shared tuples for a count of {count}", tuples.len()));
+                        }
+                        format!("{}.{}", bytes_seen.len(), fnv(bytes_seen.iter().map(|x| *x as u64)))
+                    }
+                };
+                let per: Vec<String> = gids
+                    .iter()
+                    .map(|gid| match g.data_for_gid(GlyphId::new(*gid)) {
+                        Err(e) => err_str(&e),
+                        Ok(None) => "n".into(),
+                        Ok(Some(d)) => {
+                            if !inside(bytes, d.as_bytes()) && seen.outside.is_none() {
+                                seen.outside = Some(format!("data of glyph {gid} outside the table"));
+                            }
+                            format!("{}.{}", d.len(), fnv(d.as_bytes().iter().map(|x| *x as u64)))
+                        }
+                    })
+                    .collect();
+                format!(
+                    "{} {} {} {} {} {} {} | {}",
+                    g.axis_count(),
+                    g.shared_tuple_count(),
+                    g.glyph_count(),
+                    g.flags().bits(),
+                    g.glyph_variation_data_array_offset(),
+                    g.glyph_variation_data_offsets().len() * if g.flags().bits() & 1 == 1 { 4 } else { 2 },
+                    st,
+                    per.join(" ")
+                )
+            }
+        };
+        (s, seen)
+    });
+    settle(ctx, req, bytes, r);
+}
+
+fn ask_gvar(ctx: &mut Ctx, gid: u32, coords: &[i16], bytes: &[u8]) {
+    let req = format!("hv.gvar {} {}{}", gid, hex(bytes), coord_args(coords));
+    let cs = f2(coords);
+    let r = catch(|| {
+        let mut seen = Seen::default();
+        let s = match Gvar::read(FontData::new(bytes)).and_then(|g| g.glyph_variation_data(GlyphId::new(gid)).map(|d| (g, d))) {
+            Err(e) => err_str(&e),
+            Ok((_, None)) => "none".into(),
+            Ok((g, Some(tvd))) => {
+                // the glyph's own data starts with the count bits and the data offset
+                let data = g.data_for_gid(GlyphId::new(gid)).unwrap().unwrap();
+                let gb = data.as_bytes();
+                let bits = u16::from_be_bytes([gb[0], gb[1]]);
+                render_tvd(bytes, bits, shared_pts_of(gb, 0, 2), &tvd, &cs, &|d| [d.position as u64, d.x_delta as u32 as u64, d.y_delta as u32 as u64], &mut seen)
+            }
+        };
+        (s, seen)
+    });
+    settle(ctx, req, bytes, r);
+}
+
+fn run_gvar(ctx: &mut Ctx) {
+    let rounds = if ctx.thorough { 30 } else { 8 };
+    for round in 0..rounds {
+        let axis_count = match round % 5 {
+            0 => 0,
+            1 => 1,
+            _ => 1 + ctx.rng.below(3) as u16,
+        };
+        let n_shared = if round % 3 == 0 { 0 } else { 1 + ctx.rng.below(3) as u16 };
+        let long = round % 2 == 0;
+        let n_points = 1 + ctx.rng.below(9) as usize;
+        let n_glyphs = 1 + ctx.rng.below(3) as usize;
+        let mut glyphs = vec![];
+        for k in 0..n_glyphs {
+            if ctx.rng.chance(1, 4) && k != 0 {
+                glyphs.push(vec![]);
+                continue;
+            }
+            let t = tuple_store(&mut ctx.rng, axis_count, true, n_shared, 0, n_points + 4);
+            let mut v = t.v;
+            if v.len() % 2 == 1 {
+                v.push(0);
+            }
+            glyphs.push(v);
+        }
+        let spec = GvarSpec { axis_count, n_shared, glyphs, long };
+        let b = gvar_table(&mut ctx.rng, &spec);
+        let coords = rcoords(&mut ctx.rng, axis_count);
+        let gids = edge32(&[n_glyphs as u64]);
+        for (k, v) in variants(&mut ctx.rng, &b, 8).into_iter().enumerate() {
+            ask_gvarhdr(ctx, &gids, &v);
+            ask_gvar(ctx, (k % n_glyphs) as u32, &coords, &v);
+            if k == 0 {
+                for gid in &gids {
+                    ask_gvar(ctx, *gid, &coords, &v);
+                }
+                ask_gvar(ctx, 0, &[], &v);
+            }
+        }
+        // hostile offset arrays: descending, beyond the data, all equal, random
+        for variant in 0..4 {
+            let mut m = b.clone();
+            let w = if long { 4 } else { 2 };
+            for k in 0..=n_glyphs {
+                let pos = 20 + k * w;
+                let v: u32 = match variant {
+                    0 => ((n_glyphs - k) * 6) as u32,
+                    1 => b.len() as u32 + k as u32 * 2,
+                    2 => 4,
+                    _ => ctx.rng.below(b.len() as u64 + 8) as u32,
+                };
+                if long {
+                    m.set32(pos, v);
+                } else {
+                    m.set16(pos, (v / 2) as u16);
+                }
+            }
+            ask_gvarhdr(ctx, &gids, &m.v);
+            for gid in 0..n_glyphs as u32 {
+                ask_gvar(ctx, gid, &coords, &m.v);
+            }
+        }
+        ctx.count(if long { "gvar.long" } else { "gvar.short" });
+    }
+    // data array offset near u32::MAX: the checked additions
+    for (dao, o0, o1) in [(0xFFFF_FFF0u32, 0x10u32, 0x20u32), (0xFFFF_FFFF, 0, 1), (0x20, 0xFFFF_FFE0, 0xFFFF_FFF0), (0x7FFF_FFFF, 0x7FFF_FFFF, 0x8000_0001), (24, 0, 8)] {
+        let mut b = B::new();
+        b.u16(1).u16(0).u16(1).u16(0).u32(0).u16(1).u16(1).u32(dao).u32(o0).u32(o1);
+        b.bytes(&[0, 0, 0, 4, 0, 0, 0, 0]);
+        ask_gvarhdr(ctx, &[0, 1, 2], &b.v);
+        ask_gvar(ctx, 0, &[0x4000], &b.v);
+        ctx.count("gvar.big-offsets");
+    }
+}
+
+fn run_cvard(ctx: &mut Ctx) {
+    let rounds = if ctx.thorough { 40 } else { 8 };
+    for round in 0..rounds {
+        let ac = match round % 4 {
+            0 => 0,
+            _ => 1 + ctx.rng.below(3) as u16,
+        };
+        let mut b = B::new();
+        b.u16(1).u16(0);
+        let n_cvt = 1 + ctx.rng.below(12) as usize;
+        let store = tuple_store(&mut ctx.rng, ac, false, 0, 4, n_cvt);
+        b.append(&store);
+        let coords = rcoords(&mut ctx.rng, ac);
+        for (k, v) in variants(&mut ctx.rng, &b, 6).into_iter().enumerate() {
+            ask_cvard(ctx, ac, [n_cvt, 0, 1, 300][k % 4], &coords, &v);
+        }
+        ctx.count("cvard");
+    }
+}
+
 pub fn run(ctx: &mut Ctx) {
     run_tvhdr(ctx);
     run_cvar(ctx);
-    let _ = GlyphId::new(0);
+    run_cvard(ctx);
+    run_gvar(ctx);
 }
